@@ -52,6 +52,16 @@ EStep ==
        THEN (IF /\ \E i \in DOMAIN Ev.got.list : Ev.got.list[i].sched = sc.want.id /\ Ev.got.list[i].prefix = sc.want.id
                 /\ \A i \in DOMAIN Ev.got.list : Ev.got.list[i].sched = sc.want.id => Ev.got.list[i].prefix = sc.want.id
              THEN "" ELSE "a derived promise id does not embed the schedule id unaltered")
+       ELSE IF sc.family = "schedule-recreate" /\ Ev.name = "list"
+       THEN (IF \E i \in DOMAIN Ev.got.list : Ev.got.list[i].sched = sc.want.id /\ Ev.got.list[i].prefix = "76322e" \o sc.want.id
+             THEN "" ELSE "a derived promise id does not follow the id template the schedule was given")
+       ELSE IF sc.family = "schedule-maps" /\ Ev.name = "read-schedule"
+       THEN (IF Ev.class = "2xx" /\ Ev.got.present /\ Ev.got.stags = <<>> /\ Ev.got.sptags = <<>> /\ Ev.got.spheaders = <<>>
+             THEN "" ELSE "a datum was not returned as supplied")
+       ELSE IF sc.family = "schedule-maps" /\ Ev.name = "list"
+       THEN (IF /\ Len(Ev.got.list) > 0
+                /\ \A i \in DOMAIN Ev.got.list : Ev.got.list[i].headers = <<>> /\ Ev.got.list[i].ntags = 2
+             THEN "" ELSE "a datum was not returned as supplied")
        ELSE IF sc.family = "derived-task" /\ Ev.do = "received"
        THEN (IF /\ Len(Ev.got.list) > 0
                 /\ \A i \in DOMAIN Ev.got.list :
@@ -68,7 +78,7 @@ Next == EBegin \/ EStep \/ EEnd
 Spec == Init /\ [][Next]_vars
 
 C20_ReturnedAsSupplied == bad \notin {"a datum was not returned as supplied", "a stored promise cannot be read back", "a well-formed write was refused", "ids are not compared exactly"}
-C20_DerivedIdsEmbedClientId == bad \notin {"a derived promise id does not embed the schedule id unaltered", "a derived task id / link does not embed the promise id unaltered"}
+C20_DerivedIdsEmbedClientId == bad \notin {"a derived promise id does not follow the id template the schedule was given", "a derived promise id does not embed the schedule id unaltered", "a derived task id / link does not embed the promise id unaltered"}
 C20_ServerSurvives == bad \notin {"the server died", "the server did not come back"}
 
 TraceAccepted ==
